@@ -8,8 +8,8 @@ import (
 	"time"
 
 	corev1 "k8s.io/api/core/v1"
-	metav1 "k8s.io/apimachinery/pkg/apis/meta/v1"
 	"k8s.io/apimachinery/pkg/api/resource"
+	metav1 "k8s.io/apimachinery/pkg/apis/meta/v1"
 	"k8s.io/apimachinery/pkg/types"
 	"sigs.k8s.io/controller-runtime/pkg/client"
 	"sigs.k8s.io/controller-runtime/pkg/reconcile"
@@ -51,6 +51,9 @@ type KubeletOpts struct {
 	NotReadyTaints bool // node.kubernetes.io/not-ready taints present (as on a fresh node)
 	ZeroExtended   bool // extended resources reported as zero (device plugin not up yet)
 	NoUnregistered bool // omit the karpenter.sh/unregistered taint
+	// StartupTaintVariant: how the kubelet writes the NodeClaim's startup taints: 0 verbatim, 1 same key and effect with a
+	// different value, 2 with timeAdded set (taint identity is key + effect)
+	StartupTaintVariant int
 }
 
 // KubeletRegister creates the Node object for a launched instance, the way a kubelet configured by the
@@ -62,7 +65,16 @@ func (e *Env) KubeletRegister(inst *Instance, o KubeletOpts) *corev1.Node {
 	if e.Get(&v1.NodeClaim{ObjectMeta: metav1.ObjectMeta{Name: inst.ClaimName}}) {
 		_ = e.API.Raw.Get(context.Background(), types.NamespacedName{Name: inst.ClaimName}, nc)
 		taints = append(taints, nc.Spec.Taints...)
-		taints = append(taints, nc.Spec.StartupTaints...)
+		for _, st := range nc.Spec.StartupTaints {
+			switch o.StartupTaintVariant {
+			case 1:
+				st.Value = st.Value + "x"
+			case 2:
+				now := metav1.NewTime(e.Clock.Now())
+				st.TimeAdded = &now
+			}
+			taints = append(taints, st)
+		}
 	}
 	if !o.NoUnregistered {
 		taints = append(taints, v1.UnregisteredNoExecuteTaint)
@@ -260,7 +272,6 @@ func (e *Env) ClaimNames() []string {
 	sort.Strings(out)
 	return out
 }
-
 
 // KubeletSetReady sets the node's Ready condition to "True", "False", "Unknown" (kubelet stopped heart-beating, as the
 // node-lifecycle controller reports it) or removes the condition altogether ("absent").
